@@ -147,3 +147,38 @@ mismatch2_harness!(c08_q_tworeal_nk_rs, Pat::NK, 0, Item::RsOfInitiator, 0);
 mismatch2_harness!(c08_t_tworeal_xxpsk0psk3_psk3, Pat::XX, 9, Item::Psk(3), 2);
 mismatch2_harness!(c08_t_tworeal_kk_rs_r, Pat::KK, 0, Item::RsOfResponder, 0);
 mismatch2_harness!(c08_t_tworeal_nnpsk1psk2_psk2, Pat::NN, 6, Item::Psk(2), 1);
+
+/// Through the real `Builder`: two endpoints configured with prologues that agree on the first 128 bytes (a hash
+/// block of the largest hash) and differ in one later byte (symbolic non-zero difference), or in length, must not
+/// even start from the same handshake hash.
+#[kani::proof]
+#[kani::unwind(140)]
+pub fn c08_q_builder_long_prologue_mismatch() {
+    use crate::stubs::*;
+    const PRO: usize = 131;
+    let delta: u8 = kani::any();
+    kani::assume(delta != 0);
+    let pos: usize = kani::any();
+    kani::assume(pos >= 128 && pos < PRO);
+    let pa = [0x33u8; PRO];
+    let mut pb = pa;
+    pb[pos] ^= delta;
+    let shorter: bool = kani::any();
+    let pb_used: &[u8] = if shorter { &pa[..PRO - 1] } else { &pb };
+    let a = snow::Builder::with_resolver(mk_params(NAME, Pat::NN, 0), Box::new(ToyResolver)).prologue(&pa).unwrap().build_initiator();
+    let b = snow::Builder::with_resolver(mk_params(NAME, Pat::NN, 0), Box::new(ToyResolverB)).prologue(pb_used).unwrap().build_responder();
+    kani::cover!(a.is_ok() && b.is_ok(), "C08 builder mismatch harness reached");
+    assert!(a.is_ok() && b.is_ok(), "C08 harness: builders");
+    if let (Ok(a), Ok(b)) = (a, b) {
+        let (ha, hb) = (a.get_handshake_hash(), b.get_handshake_hash());
+        let mut same = true;
+        let mut j = 0;
+        while j < 8 {
+            same &= ha[j] == hb[j];
+            j += 1;
+        }
+        assert!(!same, "C08: two endpoints whose prologues differ (beyond the first 128 bytes / in length) start from the same handshake hash");
+        core::mem::forget(a);
+        core::mem::forget(b);
+    }
+}
